@@ -1,5 +1,185 @@
 /-
-C20 — property theorems (stub: not built yet).
+C20 — case-insensitive matching ignores case.
+
+Under IgnoreCase every character test of the pattern (literal, class, back-reference) is the `ci`
+variant of the specification: it compares runes up to simple case partners, which come in as the
+oracle table `Env.fold` (rows of Go's `unicode.SimpleFold` restricted to two-element orbits).  The
+theorems here say that the specification `Spec.m` / `Spec.find` (what leg S-ci compares the Go
+engine with) then really ignores case:
+
+* input side — the ordered list of successes, hence the match found, its span and all captures, is
+  the same on two inputs that differ only in the case of letters (`m_flip_invariant`,
+  `find_flip_invariant`);
+* pattern side — the case of a literal, and of the endpoints of a class range, may be changed
+  without changing any result, also inside negated classes and subtractions
+  (`pred_one_flip_pattern`, `pred_notone_flip_pattern`, `cls_range_flip_pattern`,
+  `m_pattern_flip_invariant`, `find_pattern_flip_invariant`).
+
+The only facts about the oracle tables that are used are collected in `Spec.FoldOK`: the partner
+relation is an involution, `\b`'s word test agrees on partners, `'\n'` has no partner.  Closure of
+the named classes (`\w`, `\d`, …) under partners is not needed: a `ci` class accepts a rune when it
+or its partner is in the positive part.  `FoldOK` is implied by the executable check
+`Spec.foldCheck` on the finite tables (`foldOK_of_foldCheck`).
 -/
+import RegexVerif.Lemmas.SpecFlip
+
 namespace RegexVerif.Props.C20
+open RegexVerif RegexVerif.Spec RegexVerif.Spec.FlipDemo
+
+/- The `example`s use the concrete instance `Spec.FlipDemo` (end of Lemmas/SpecFlip.lean): tables with
+   the case pairs a↔A, b↔B, the texts "abAB" / "ABab" and the pattern `(?i)(a)[a-b\p{0}-[a]]+?\1\B`
+   (`demoPat`) with its upper-case spelling `demoPat'`. -/
+
+/-! ### the relation "equal up to case" -/
+
+/-- **Equality up to simple case partners is an equivalence relation** when the partner table is an
+    involution.  This is what makes a case-insensitive back-reference meaningful: the captured
+    slice and the compared slice may be re-cased independently. -/
+theorem eqCi_equiv (e : Env) (hf : FoldOK e) :
+    (∀ a, e.eqCi a a = true) ∧
+    (∀ a b, e.eqCi a b = true → e.eqCi b a = true) ∧
+    (∀ a b c, e.eqCi a b = true → e.eqCi b c = true → e.eqCi a c = true) :=
+  ⟨eqCi_refl e, fun _ _ h => eqCi_symm hf h, fun _ _ _ h1 h2 => eqCi_trans hf h1 h2⟩
+
+example : FoldOK (demoEnv demoText) ∧ (demoEnv demoText).eqCi 97 65 = true ∧ (demoEnv demoText).eqCi 97 66 = false :=
+  ⟨demo_foldOK _, by decide, by decide⟩
+
+/-- **`SameUpToCase` is what it says**: the two texts have the same length and at every position the
+    runes are equal or the second is the simple case partner of the first. -/
+theorem sameUpToCase_pointwise (e : Env) (t t' : List Nat) :
+    SameUpToCase e t t' ↔
+      t'.length = t.length ∧ ∀ (i a b : Nat), t[i]? = some a → t'[i]? = some b → (a = b ∨ e.partner a = some b) := by
+  rw [sameUpToCase_iff]
+  simp only [eqCi_iff]
+
+example : SameUpToCase (demoEnv demoText) demoText demoText' ∧ ¬ SameUpToCase (demoEnv demoText) demoText [65, 65, 97, 98] := by
+  refine ⟨demo_same, ?_⟩
+  intro h
+  have := ((sameUpToCase_pointwise _ _ _).mp h).2 1 98 65 rfl rfl
+  revert this; decide
+
+/-- "equal up to case" is symmetric: it does not matter which of the two inputs is the original -/
+theorem sameUpToCase_symm (e : Env) (hf : FoldOK e) (t t' : List Nat) (h : SameUpToCase e t t') :
+    SameUpToCase e t' t :=
+  h.symm hf
+
+example : SameUpToCase (demoEnv demoText) demoText' demoText := sameUpToCase_symm _ (demo_foldOK _) _ _ demo_same
+
+/-- **The executable table check implies `FoldOK`**: when every row `(r, q)` of the fold table has the
+    reverse lookup `q ↦ r` and `r`, `q` agree on word-ness, and `'\n'` has no row, the tables are
+    closed under case partners.  (The harness supplies rows of `unicode.SimpleFold` for two-element
+    orbits, both directions listed.) -/
+theorem foldOK_of_foldCheck (e : Env) (h : foldCheck e = true) : FoldOK e := foldOK_of_check h
+
+example : foldCheck (demoEnv demoText) = true := by decide
+/-- the check rejects a table with a three-element orbit k → K → KELVIN SIGN → k -/
+example : foldCheck { demoEnv demoText with fold := [(107, 75), (75, 8490), (8490, 107)] } = false := by decide
+
+/-! ### input side -/
+
+/-- **A case-insensitive character test does not distinguish case-equal runes**: a ci literal, a ci
+    negated literal and a ci class (with negation, named classes and subtraction) give the same
+    answer on `r` and on `r'` whenever `r'` is `r` or its case partner. -/
+theorem pred_test_flip_invariant (e : Env) (hf : FoldOK e) (r r' : Nat) (h : e.eqCi r r' = true) (p : Pred)
+    (hp : p.isCi = true) : p.test e r' = p.test e r :=
+  pred_test_flip hf h p hp
+
+example : (Pred.set (.diff (.base true [(97, 97)] [(0, false)]) (.base false [(98, 98)] [])) true).isCi = true ∧
+    (demoEnv demoText).eqCi 98 66 = true := ⟨rfl, by decide⟩
+
+/-- **Flip invariance of the specification's list of successes.**  If the tables are closed under
+    case partners, `t'` is the input with the case of some letters changed, and every character test
+    and back-reference of the pattern is case-insensitive, then for every direction and every start
+    state the ordered list of all successes — end positions *and* capture logs
+    `(group, start, length)` — on `t'` is the list on the original input.  For the Go engine
+    (through leg S-ci): under IgnoreCase the priority order of the backtracking search, the spans and
+    all group captures do not depend on the case of input letters. -/
+theorem m_flip_invariant (e : Env) (hf : FoldOK e) (t' : List Nat) (ht : SameUpToCase e e.text t')
+    (p : Pat) (hp : AllCi p) :
+    ∀ (rtl : Bool) (st : St), m { e with text := t' } p rtl st = m e p rtl st :=
+  m_flip hf ht p hp
+
+example : FoldOK (demoEnv demoText) ∧ SameUpToCase (demoEnv demoText) (demoEnv demoText).text demoText' ∧
+    AllCi demoPat ∧
+    m (demoEnv demoText) demoPat false { pos := 0, caps := [] } = [{ pos := 3, caps := [(1, 0, 1)] }] ∧
+    m { demoEnv demoText with text := demoText' } demoPat false { pos := 0, caps := [] } =
+      [{ pos := 3, caps := [(1, 0, 1)] }] :=
+  ⟨demo_foldOK _, demo_same, by decide, by decide, by decide⟩
+
+/-- **Flip invariance of find.**  Under the same hypotheses the match found from any start position
+    in either direction (`none`, or the end position with the capture log, group 0 included) is
+    the same on both inputs. -/
+theorem find_flip_invariant (e : Env) (hf : FoldOK e) (t' : List Nat) (ht : SameUpToCase e e.text t')
+    (p : Pat) (hp : AllCi p) (rtl : Bool) (start : Nat) :
+    find { e with text := t' } p rtl start = find e p rtl start :=
+  find_flip hf ht p hp rtl start
+
+example : find (demoEnv demoText) demoPat false 0 = some { pos := 3, caps := [(1, 0, 1), (0, 0, 3)] } ∧
+    find (demoEnv demoText') demoPat false 0 = some { pos := 3, caps := [(1, 0, 1), (0, 0, 3)] } ∧
+    find (demoEnv demoText) (.seq (.cap 1 (.chr (.one 97 true))) (.chr (.notone 97 true))) true 4 =
+      some { pos := 2, caps := [(1, 2, 1), (0, 2, 2)] } ∧
+    find (demoEnv demoText') (.seq (.cap 1 (.chr (.one 97 true))) (.chr (.notone 97 true))) true 4 =
+      some { pos := 2, caps := [(1, 2, 1), (0, 2, 2)] } :=
+  ⟨by decide, by decide, by decide, by decide⟩
+
+/-- the hypothesis `AllCi` is needed: a case-sensitive literal tells the two inputs apart -/
+example : find (demoEnv demoText) (.chr (.one 97 false)) false 0 ≠ find (demoEnv demoText') (.chr (.one 97 false)) false 0 := by
+  decide
+
+/-! ### pattern side -/
+
+/-- **The case of a ci literal does not matter**: `(?i)a` and `(?i)A` accept the same runes. -/
+theorem pred_one_flip_pattern (e : Env) (hf : FoldOK e) (c c' : Nat) (h : e.eqCi c c' = true) (r : Nat) :
+    (Pred.one c' true).test e r = (Pred.one c true).test e r :=
+  Spec.pred_one_flip_pattern hf h r
+
+/-- **The case of a ci negated literal does not matter**: `(?i)[^a]` and `(?i)[^A]` accept the same
+    runes. -/
+theorem pred_notone_flip_pattern (e : Env) (hf : FoldOK e) (c c' : Nat) (h : e.eqCi c c' = true) (r : Nat) :
+    (Pred.notone c' true).test e r = (Pred.notone c true).test e r :=
+  Spec.pred_notone_flip_pattern hf h r
+
+example : (demoEnv demoText).eqCi 97 65 = true ∧
+    (Pred.one 65 true).test (demoEnv demoText) 97 = true ∧ (Pred.notone 65 true).test (demoEnv demoText) 97 = false :=
+  ⟨by decide, by decide, by decide⟩
+
+/-- **The case of the endpoints of a ci class range does not matter**: inside a ci class (negated or
+    not, with any other ranges and named classes) a range `lo-hi` may be replaced by `lo'-hi'` when
+    every rune of either range is case-equal to a rune of the other, e.g. `a-z` by `A-Z`. -/
+theorem cls_range_flip_pattern (e : Env) (hf : FoldOK e) (neg : Bool) (rs₁ rs₂ : List (Nat × Nat))
+    (ns : List (Nat × Bool)) (lo hi lo' hi' : Nat)
+    (h1 : ∀ x, lo ≤ x → x ≤ hi → ∃ y, e.eqCi x y = true ∧ lo' ≤ y ∧ y ≤ hi')
+    (h2 : ∀ y, lo' ≤ y → y ≤ hi' → ∃ x, e.eqCi y x = true ∧ lo ≤ x ∧ x ≤ hi) (r : Nat) :
+    (Cls.base neg (rs₁ ++ (lo', hi') :: rs₂) ns).mem e true r =
+      (Cls.base neg (rs₁ ++ (lo, hi) :: rs₂) ns).mem e true r :=
+  Spec.cls_range_flip_pattern hf neg rs₁ rs₂ ns lo hi lo' hi' h1 h2 r
+
+/-- **Flip invariance in the pattern.**  Replacing character tests of the pattern by tests that
+    accept the same runes (`PatTestEq`: same shape, pointwise equal tests — by the three theorems
+    above this covers re-casing ci literals and ci range endpoints, under negation and subtraction
+    via `cls_diff_congr`) changes no list of successes. -/
+theorem m_pattern_flip_invariant (e : Env) (p p' : Pat) (h : PatTestEq e p p') :
+    ∀ (rtl : Bool) (st : St), m e p' rtl st = m e p rtl st :=
+  m_congr_tests h
+
+/-- **Flip invariance of find in the pattern**: same hypotheses, same match (span and captures). -/
+theorem find_pattern_flip_invariant (e : Env) (p p' : Pat) (h : PatTestEq e p p') (rtl : Bool) (start : Nat) :
+    find e p' rtl start = find e p rtl start :=
+  find_congr_tests h rtl start
+
+example : PatTestEq (demoEnv demoText) demoPat demoPat' ∧ demoPat ≠ demoPat' ∧
+    find (demoEnv demoText) demoPat' false 0 = some { pos := 3, caps := [(1, 0, 1), (0, 0, 3)] } :=
+  ⟨demo_patTestEq _, by simp [demoPat, demoPat'], by decide⟩
+
+/-- **Both sides at once**: re-casing the input and the pattern of a case-insensitive search gives
+    the same match. -/
+theorem find_flip_both (e : Env) (hf : FoldOK e) (t' : List Nat) (ht : SameUpToCase e e.text t')
+    (p p' : Pat) (hp : AllCi p) (h : PatTestEq e p p') (rtl : Bool) (start : Nat) :
+    find { e with text := t' } p' rtl start = find e p rtl start := by
+  have h' : PatTestEq { e with text := t' } p p' := h.text t'
+  rw [find_congr_tests h', find_flip hf ht p hp]
+
+example : find { demoEnv demoText with text := demoText' } demoPat' false 0 = find (demoEnv demoText) demoPat false 0 :=
+  find_flip_both _ (demo_foldOK _) _ demo_same _ _ (by decide) (demo_patTestEq _) false 0
+
 end RegexVerif.Props.C20
